@@ -53,7 +53,20 @@ pub fn base_workspaces() -> Vec<(String, Workspace)> {
             WsPackage { name: "json".into(), files: vec![WsFile { rel: "src/json.gleam".into(), text: base("w3_dep.gleam") }], deps: vec![], is_local: false },
         ],
     };
-    vec![("w1".into(), w1), ("w2".into(), w2), ("w3".into(), w3)]
+    // a type whose fields are used in a module that never imports the declaring module
+    let w4 = Workspace {
+        packages: vec![WsPackage {
+            name: "app".into(),
+            files: vec![
+                WsFile { rel: "src/app.gleam".into(), text: base("w4_app.gleam") },
+                WsFile { rel: "src/factory.gleam".into(), text: base("w4_factory.gleam") },
+                WsFile { rel: "src/shapes.gleam".into(), text: base("w4_shapes.gleam") },
+            ],
+            deps: vec![],
+            is_local: true,
+        }],
+    };
+    vec![("w1".into(), w1), ("w2".into(), w2), ("w3".into(), w3), ("w4".into(), w4)]
 }
 
 /// Hand-written pathological workspaces (each a known risk shape).
@@ -94,7 +107,7 @@ pub fn pathological() -> Vec<(String, Workspace)> {
     ]
 }
 
-const QUICK_SYMS: &[&str] = &["(", ")", "{", "}", ",", ".", ":", "->", "=", "|", "#", "..", "a", "A", "_", "1", "\"s\"", "fn", "let", "case", "as", "<>", "|>", "$"];
+const QUICK_SYMS: &[&str] = &["(", ")", "{", "}", ",", ".", ":", "->", "=", "|", "#", "..", "a", "A", "1", "fn", "case", "$"];
 
 pub struct Variant {
     pub desc: String,
@@ -396,25 +409,11 @@ pub fn run_inner(which: Which, tier: Tier) -> i32 {
     let mut rep = Report::new(prop, tier);
     supervise::start_watchdog(Duration::from_secs(tier.pick(30, 60)));
     let bases = base_workspaces();
-    let mut all: Vec<Variant> = vec![];
-    // pathological shapes first: a crashing one is then found (and skipped) within the first second
-    for (name, ws) in pathological() {
-        // alias-cycle aborts the process (C10's known finding); only C10 pays for that round
-        if which != Which::C10 && name == "alias-cycle" {
-            continue;
-        }
-        all.push(Variant { desc: format!("pathological:{name}"), ws, pkg: 0, file: 0, focus: 0 });
-    }
-    for (name, ws) in &bases {
-        all.push(Variant { desc: format!("{name}: unchanged"), ws: ws.clone(), pkg: 0, file: 0, focus: 0 });
-        for (pi, p) in ws.packages.iter().enumerate() {
-            for fi in 0..p.files.len() {
-                let chars = which == Which::C10 && (tier == Tier::Thorough || (name == "w3"));
-                let mut vs = variants_of(name, ws, pi, fi, tier, chars);
-            
-                all.extend(vs);
-            }
-        }
+    let mut all = all_variants(which, tier);
+    if which != Which::C10 {
+        // variants that abort the process are C10's business (its known findings); skip them here
+        let ka = known_aborting();
+        all.retain(|v| !ka.contains(&v.desc));
     }
     let skips = skip_list();
     for sk in &skips {
@@ -423,7 +422,7 @@ pub fn run_inner(which: Which, tier: Tier) -> i32 {
         if which == Which::C10 {
             let how = sk["how"].as_str().unwrap_or("");
             let kind = if how.contains("signal") { "process killed (stack overflow / abort)" } else { how };
-            rep.violation(Violation { class: "abort-or-hang".into(), key: format!("{}|{}", desc.split(": ").last().unwrap_or(desc), kind), witness: json!({"case": sk["case"]}), detail: format!("[{desc}] evaluating all queries on this workspace: {how}") });
+            rep.violation(Violation { class: "abort-or-hang".into(), key: format!("{}|{}", desc, kind), witness: json!({"case": sk["case"]}), detail: format!("[{desc}] evaluating all queries on this workspace: {how}") });
         }
     }
     let total = all.len() as u64;
@@ -488,12 +487,62 @@ pub fn run_inner(which: Which, tier: Tier) -> i32 {
     rep.finish()
 }
 
+/// Descriptions of variants that C10's known findings list as killing the process.
+fn known_aborting() -> Vec<String> {
+    crate::core::load_known()
+        .into_iter()
+        .filter(|k| k.property == "C10" && k.status == "known" && k.key.starts_with("abort-or-hang|"))
+        .filter_map(|k| k.key.split('|').nth(1).map(|s| s.to_string()))
+        .collect()
+}
+
+fn all_variants(which: Which, tier: Tier) -> Vec<Variant> {
+    let bases = base_workspaces();
+    let mut all: Vec<Variant> = vec![];
+    for (name, ws) in pathological() {
+        all.push(Variant { desc: format!("pathological:{name}"), ws, pkg: 0, file: 0, focus: 0 });
+    }
+    for (name, ws) in &bases {
+        all.push(Variant { desc: format!("{name}: unchanged"), ws: ws.clone(), pkg: 0, file: 0, focus: 0 });
+        for (pi, p) in ws.packages.iter().enumerate() {
+            for fi in 0..p.files.len() {
+                let chars = which == Which::C10 && (tier == Tier::Thorough || (name == "w3"));
+                all.extend(variants_of(name, ws, pi, fi, tier, chars));
+            }
+        }
+    }
+    all
+}
+
 pub fn run(which: Which, tier: Tier) -> i32 {
     // Crash containment loop: a case that kills the sweep process is confirmed in isolation,
     // put on the skip list (and reported by the next round's report), and the sweep restarts.
     let skip_path = crate::core::verif_root().join(".scratch").join(format!("skip-{}.json", which.name()));
     let mut skipped: Vec<Value> = vec![];
-    let _ = std::fs::write(&skip_path, "[]");
+    if which == Which::C10 {
+        // the variants listed as aborting are tried first, each in its own process, so that the
+        // main sweep does not have to die on them (they are still reported from what is observed)
+        let ka = known_aborting();
+        if !ka.is_empty() {
+            let dir = crate::core::verif_root().join(".scratch/journal/C10-pre");
+            let _ = std::fs::remove_dir_all(&dir);
+            let _ = std::fs::create_dir_all(&dir);
+            let exe = std::env::current_exe().unwrap();
+            for (i, v) in all_variants(which, tier).into_iter().filter(|v| ka.contains(&v.desc)).enumerate() {
+                let cj = case_json(&v);
+                let p = dir.join(format!("{i}.json"));
+                let _ = std::fs::write(&p, cj.to_string());
+                let st = std::process::Command::new(&exe).args(["worker", "one", "C10"]).arg(&p).stdout(std::process::Stdio::null()).stderr(std::process::Stdio::null()).status();
+                if let Ok(st) = st {
+                    use std::os::unix::process::ExitStatusExt;
+                    if let Some(sig) = st.signal() {
+                        skipped.push(json!({"desc": v.desc, "how": format!("killed by signal {sig}"), "case": cj}));
+                    }
+                }
+            }
+        }
+    }
+    let _ = std::fs::write(&skip_path, serde_json::to_string(&skipped).unwrap());
     std::env::set_var("GMC_SKIP_FILE", &skip_path);
     for _round in 0..12 {
         match supervise::supervise(which.name(), tier.name(), Duration::from_secs(300)) {
